@@ -112,6 +112,11 @@ def gen_config(rng, nargs, kinds=KINDS, features=True, prefix_family=True, posit
         a.refspec = a.short if (a.short and (not a.long or rng.chance(1, 2))) else a.long
         if a.kind == 'b':
             a.init = '0'
+        # scalar destinations that hold a value before the evaluation (untouched defaults, pre-set optional)
+        if features and a.kind in ('i', 'oi') and rng.chance(1, 3):
+            a.init = str(rng.range(-9, 99))
+        if features and a.kind == 's' and rng.chance(1, 3):
+            a.init = hx(rng.choice(['dflt', 'k', 'X0']))
         if a.kind == 'lc' and features:
             a.mix = rng.chance(1, 4)
             if rng.chance(1, 3):
@@ -243,6 +248,8 @@ def gen_value(rng, a, valid=True):
         return ''
     if vals:
         return rng.choice(vals)
+    if a.kind == 's' and mn == 0 and rng.chance(1, 8):
+        return ''                       # the empty string is a value like any other
     n = rng.range(max(mn, 1), max(mn, 1, mx))
     # scalar strings also carry characters that mean something to the tokenizer ('=', '-', ...)
     alpha = WORDCH + '==-+/#(!' if a.kind == 's' else WORDCH
@@ -587,7 +594,7 @@ def _value_words(rng, a, args, abbr, text, note):
     # a value that may not stand as a word of its own: leading dash, or exactly one control character
     dash = text.startswith('-') or text in ('(', ')', '!')
     if a.short:
-        if not dash and text != '':
+        if not dash and (text != '' or a.kind == 's'):
             forms.append(('short-sep', ['-' + a.short, text]))
         if text != '' and a.kind != 'lc':      # optional value mode: no glued value
             forms.append(('short-glued', ['-' + a.short + text]))
@@ -597,7 +604,7 @@ def _value_words(rng, a, args, abbr, text, note):
             tag = 'long' if nme == a.long else 'abbrev'
             if '=' not in nme:
                 forms.append((tag + '-eq', ['--%s=%s' % (nme, text)]))
-            if not dash and text != '':
+            if not dash and (text != '' or a.kind == 's'):
                 forms.append((tag + '-sep', ['--' + nme, text]))
     if not forms:
         # only a short key and an empty or dashed value: empty value as its own word
@@ -620,11 +627,11 @@ def expected_store(args, uses):
         if a.kind == 'b':
             out[a.slot] = '0'
         elif a.kind == 'i':
-            out[a.slot] = '0'
+            out[a.slot] = a.init or '0'
         elif a.kind == 's':
-            out[a.slot] = 's-'
+            out[a.slot] = 's' + (a.init or '-')
         elif a.kind == 'oi':
-            out[a.slot] = 'none'
+            out[a.slot] = a.init or 'none'
         elif a.kind == 'vi':
             out[a.slot] = '[' + ','.join(str(int(x)) for x in (a.init.split('~') if a.init else [])) + ']'
         elif a.kind == 'vs':
@@ -672,7 +679,7 @@ def mutate(rng, kind, args, cons, uses):
     uses = [Use(u.arg, list(u.values)) for u in uses]
     spell_ = lambda us: spell(rng, us, args, True)  # noqa
     if kind == 'drop-mandatory':
-        cand = [i for i, u in enumerate(uses) if u.arg.mand and not (u.arg.is_vec() and u.arg.init)
+        cand = [i for i, u in enumerate(uses) if u.arg.mand and not ((u.arg.is_vec() or u.arg.kind == 'oi') and u.arg.init)
                 and sum(1 for x in uses if x.arg is u.arg) == 1]
         if not cand:
             return None
